@@ -395,6 +395,41 @@ impl Values {
             }
         }
         jobs.push(("every length form of DATE/DATETIME/TIMESTAMP/TIME".into(), temporal));
+        // calendar and clock shapes: every month with its first / 28th / last days in five years,
+        // every hour, microseconds of every decimal shape
+        let usx = super::c06::USX;
+        let mut cal = Vec::new();
+        let mut k = 0usize;
+        for y in [1u16, 1970, 2000, 2024, 9999] {
+            for mo in 1..=12u8 {
+                for d in [1u8, 28, 29, 30, 31] {
+                    if chrono::NaiveDate::from_ymd_opt(y as i32, mo as u32, d as u32).is_none() {
+                        continue;
+                    }
+                    k += 1;
+                    cal.push(PSem::Date { ty: 0x0a, len: 4, y, mo, d, h: 0, mi: 0, s: 0, us: 0 });
+                    let (h, mi, sec) = ((k % 24) as u8, [0u8, 59, 30, 7][k % 4], [0u8, 59, 15, 1][(k / 4) % 4]);
+                    for ty in [0x0cu8, 0x07] {
+                        cal.push(PSem::Date { ty, len: 7, y, mo, d, h, mi, s: sec, us: 0 });
+                        cal.push(PSem::Date { ty, len: 11, y, mo, d, h, mi, s: sec, us: usx[k % usx.len()] });
+                    }
+                }
+            }
+        }
+        jobs.push(("calendar shapes: months x first/28th/last days x 5 years, as DATE and DATETIME/TIMESTAMP".into(), cal));
+        let mut clk = Vec::new();
+        for days in [0u32, 1, 2, 33, 34] {
+            for h in 0..24u8 {
+                for (i, us) in usx.iter().enumerate() {
+                    if (i + h as usize) % 4 != 0 {
+                        continue;
+                    }
+                    clk.push(PSem::Time { len: 12, neg: false, days, h, m: (h * 2 + 1) % 60, s: 59 - h, us: *us });
+                }
+                clk.push(PSem::Time { len: 8, neg: false, days, h, m: 0, s: 0, us: 0 });
+            }
+        }
+        jobs.push(("clock shapes: every hour x days 0,1,2,33,34 x microseconds of every decimal shape, as TIME".into(), clk));
         Values { jobs }
     }
 }
@@ -718,7 +753,7 @@ pub fn build(quick: bool) -> Check {
     Check {
         id: "C08",
         level: "model_checking",
-        rule: "COM_STMT_EXECUTE parameter blocks built from semantic values by the independent encoder and run through the real run_on; the shim records (type, raw inner value) and applies the documented Into<T> for the corresponding Rust type under catch_unwind. Domains: TINY, SHORT, YEAR exhaustive (signed and unsigned); LONG/INT24/LONGLONG over every 2^k, 2^k+-1 and the bounds; FLOAT/DOUBLE lattices incl. subnormals and infinities; byte strings of every length 0..300 and the length-class edges for all 14 string-like type codes, 65535..65537 (and around 2^24 in thorough); every legal length form of DATE/DATETIME/TIMESTAMP (0,4,7,11; DATE with a time part raw only) and TIME (0,8,12) over boundary calendar values, negative TIME raw only; all 25 type codes x unsigned in four position classes next to every other type; consecutive executions of one statement binding every ordered pair of (type, unsigned) tables (one parameter: all 50^2; two parameters: all 12^4 over the integer codes, thorough: all 50^4 over every code; triples 12^3), values with the top bit set; parameter counts 0..17, 63, 64, 65, 255, 256, 300 with all 2^n NULL bitmaps for n <= 12 (8 in quick) and structured ones above; inline executions that follow an execution fed by 0..1.2 MB of long data; every value of the flags byte x iteration counts {0,1,2,2^32-1} x 5 handshake variants (among them one that mentions every capability the server did not offer). Oracle: exactly n parameters, type = bound code, raw value = encoded value, conversion = encoded value (zero dates and negative TIME have no chrono/Duration form and are checked raw).".into(),
+        rule: "COM_STMT_EXECUTE parameter blocks built from semantic values by the independent encoder and run through the real run_on; the shim records (type, raw inner value) and applies the documented Into<T> for the corresponding Rust type under catch_unwind. Domains: TINY, SHORT, YEAR exhaustive (signed and unsigned); LONG/INT24/LONGLONG over every 2^k, 2^k+-1 and the bounds; FLOAT/DOUBLE lattices incl. subnormals and infinities; byte strings of every length 0..300 and the length-class edges for all 14 string-like type codes, 65535..65537 (and around 2^24 in thorough); every legal length form of DATE/DATETIME/TIMESTAMP (0,4,7,11; DATE with a time part raw only) and TIME (0,8,12) over boundary calendar values, every month with its first/28th/last days in five years, every hour x five day counts, microseconds of every decimal shape; negative TIME raw only; all 25 type codes x unsigned in four position classes next to every other type; consecutive executions of one statement binding every ordered pair of (type, unsigned) tables (one parameter: all 50^2; two parameters: all 12^4 over the integer codes, thorough: all 50^4 over every code; triples 12^3), values with the top bit set; parameter counts 0..17, 63, 64, 65, 255, 256, 300 with all 2^n NULL bitmaps for n <= 12 (8 in quick) and structured ones above; inline executions that follow an execution fed by 0..1.2 MB of long data; every value of the flags byte x iteration counts {0,1,2,2^32-1} x 5 handshake variants (among them one that mentions every capability the server did not offer). Oracle: exactly n parameters, type = bound code, raw value = encoded value, conversion = encoded value (zero dates and negative TIME have no chrono/Duration form and are checked raw).".into(),
         assumptions: vec!["wider integer, float and string domains are covered at lattices".into()],
         bounds: json!({"all_bitmaps_up_to_params": if quick {8} else {12}}),
         exhaustive: true,
